@@ -386,6 +386,9 @@ func genFromRootOp(c *Ctx, allowMassive bool) Op {
 	if op.Kind == "walkiter" && c.Chance(1, 5) {
 		op.Massive = true // accepted and ignored by the iterator form
 	}
+	if c.Chance(1, 12) {
+		op.NilOption = true
+	}
 	if c.Chance(1, 8) {
 		op.Alias = true
 	}
@@ -617,6 +620,17 @@ func caseC03(c *Ctx) {
 	}
 	alpha := []int{alphaPlain, alphaFS}[c.Draw(2)]
 	model := genTree(c, genName(c, alpha), forestOpts{maxExtra: 9, alpha: alpha, maxDepth: 5, maxFan: 4, shapes: true})
+	if c.Chance(1, 60) {
+		// a few hundred siblings under one node
+		p := model
+		for len(p.Kids) > 0 && c.Draw(2) == 0 {
+			p = p.Kids[0]
+		}
+		for i := 0; i < 150+c.Draw(300); i++ {
+			p.Kids = append(p.Kids, &MNode{Name: fmt.Sprintf("s%03d", i)})
+		}
+		c.st.Count("wide-tree")
+	}
 	op := genFromRootOp(c, false)
 	// --- program: a drawn Add order that builds the model
 	type pend struct {
